@@ -33,7 +33,7 @@ CLAIMED = {
          "(refusal with IncompatibleFrame / None and frame unchanged for wrong sizes), all numbers, all pairs of kinds "
          "for equality and wrong-type constructor arguments; callers are checked against the Frame contracts. Lemmas over "
          "the contracts: write-then-read round trip with locality (only the field's bits change) for every kind, at most "
-         "one kind per frame and the scan returns it, every instance byte has exactly one kind.",
+         "one kind per frame and the scan returns it, every instance byte has exactly one kind. BOUNDED stand-in (history): every address byte x selector bit and instance byte decoded in four orders in forked processes, the orders compared with each other.",
     design_ref="DESIGN.md 6 (C04)",
     technique="contract-based deductive verification: refinement of each real function against a spec function + lemmas over "
               "contracts, z3 QF_BV",
@@ -220,7 +220,7 @@ CLAIMED = {
          "and every destination kind, instance kind and parameter value (all symbolic) the real constructor's frame is "
          "proved bit-identical to the standard's encoding and the standard's frame is proved to decode to the command of "
          "that name under its device type; send-twice flags, answer kinds (none / yes-no / 8-bit) and device types are "
-         "compared exhaustively, and every implemented command class must have a table row.",
+         "compared exhaustively, and every implemented command class must have a table row. BOUNDED stand-in: three commands per table row x case are built, held and read afterwards against the table (a frame object shared between commands shows up there).",
     design_ref="DESIGN.md 6 (C03)",
     technique="contract-based deductive verification: constructor output proved equal to a table-driven spec encoder "
               "(z3 QF_BV) + exhaustive comparison of the finite flag tables",
